@@ -6932,6 +6932,7 @@ class NetCDFRead(IORead):
                                 field_ncvar,
                                 field_ncvar,
                                 message=incorrect_interval,
+                                attribute=attribute,
                             )
                             return []
 
